@@ -309,7 +309,7 @@ fn as_bytes(b: &[u8]) -> &[u8] {
 
 family!(strfam, str, StrA<'s>, StrA<'_>, StrB, vec![
     "hello world 12 + 3".as_bytes(), "a...b. \"q\" zz".as_bytes(), "hé €😀 λ 1+1".as_bytes(), "".as_bytes(), "   ".as_bytes(), "@@ x @".as_bytes(),
-    "hello".as_bytes(), "ÿ9.ÿ".as_bytes(), "\"open 12".as_bytes(), "x".as_bytes(), "12345678 abcdefgh +++".as_bytes(),
+    "hello".as_bytes(), "ÿ9.ÿ".as_bytes(), "a\u{10FFFF}b \u{100000}+1".as_bytes(), "\u{10FFFF}\u{10FFFF}x\u{FFFF}\u{10000}".as_bytes(), "\"open 12".as_bytes(), "x".as_bytes(), "12345678 abcdefgh +++".as_bytes(),
 ], as_str, true);
 
 family!(bytesfam, [u8], BytesA<'s>, BytesA<'_>, BytesB, vec![
